@@ -12,7 +12,8 @@
 (***************************************************************************)
 EXTENDS CascadeDefs
 
-CONSTANTS MaxStreams, NZones, Ladders, DoEmit
+CONSTANTS MaxStreams, NZones, Ladders, DoEmit,
+          Shard, NShards     \* only multisets whose index sum is Shard modulo NShards (1 = all): the deep configuration is too large to export whole
 
 VARIABLES inp, phase
 vars == <<inp, phase>>
@@ -63,6 +64,7 @@ Variants(S, z, lo) ==
 
 Init ==
   /\ ForEachMultiset(MaxStreams, LAMBDA f : \E lo \in Ladders : \E z \in [1..Len(f) -> 1..NZones] :
+        /\ IdxSum(f) % NShards = Shard
         /\ z[1] = 1
         /\ inp = [S |-> [i \in 1..Len(f) |-> USeq[f[i]]], z |-> z, lo |-> lo])
   /\ phase = "new"
